@@ -24,7 +24,7 @@ func Configs(thorough bool) []Cfg {
 		{stacks.Config{Kind: "multi", InnerMTU: 64}, [][2]int{{0, 64}}},
 		{stacks.Config{Kind: "map", InnerMTU: 64}, [][2]int{{3, 64}}},
 		{stacks.Config{Kind: "wl", InnerMTU: 64}, [][2]int{{3, 64}}},
-		{stacks.Config{Kind: "p2pke"}, [][2]int{{0, 100}}},
+		{stacks.Config{Kind: "p2pke"}, [][2]int{{60, 100}, {0, 100}}}, // two non-empty messages over one channel first
 		{stacks.Config{Kind: "udp"}, [][2]int{{0, 100}}},
 	}
 	if thorough {
